@@ -1384,6 +1384,29 @@ fn process_fn(cx: &mut Ctx, vis: &Visibility, sig: &Signature, block: &Block, in
 // `mut x: T` parameters are not allowed on bodiless/external stubs in a meaningful way; keep the binding name only
 fn strip_mut_params(s: &str) -> String { s.to_string() }
 
+// functions of an impl block that are asked for (subject to --impl-filter), and - recursively - of impl blocks nested in the
+// bodies of its functions (the serde visitor lives inside `deserialize`)
+fn handle_impl(cx: &mut Ctx, imp: &ItemImpl, wanted: &dyn Fn(&str) -> bool) {
+    let selected = match &cx.o.impl_filter {
+        Some(filt) => {
+            let hdr = match &imp.trait_ { Some((_, path, _)) => format!("impl{}for{}", norm(path), norm(&imp.self_ty)), None => format!("impl{}", norm(&imp.self_ty)) };
+            hdr.contains(filt.as_str())
+        }
+        None => true,
+    };
+    for ii in imp.items.iter() {
+        if let ImplItem::Fn(f) = ii {
+            if f.attrs.iter().any(|a| a.path().is_ident("cfg") && norm(a).contains("test")) { continue; }
+            if selected && wanted(&f.sig.ident.to_string()) {
+                process_fn(cx, &f.vis, &f.sig, &f.block, imp.trait_.is_some());
+            }
+            for st in f.block.stmts.iter() {
+                if let Stmt::Item(Item::Impl(inner)) = st { handle_impl(cx, inner, wanted); }
+            }
+        }
+    }
+}
+
 fn main() {
     let o = parse_args();
     let src = std::fs::read_to_string(&o.src).unwrap_or_else(|e| { eprintln!("VX-ERROR cannot read {}: {}", o.src, e); std::process::exit(4) });
@@ -1405,20 +1428,7 @@ fn main() {
             continue;
         }
         match item {
-            Item::Impl(imp) => {
-                if let Some(filt) = &o.impl_filter {
-                    let hdr = match &imp.trait_ { Some((_, path, _)) => format!("impl{}for{}", norm(path), norm(&imp.self_ty)), None => format!("impl{}", norm(&imp.self_ty)) };
-                    if !hdr.contains(filt.as_str()) { continue; }
-                }
-                for ii in imp.items.iter() {
-                    if let ImplItem::Fn(f) = ii {
-                        if wanted(&f.sig.ident.to_string()) {
-                            if f.attrs.iter().any(|a| a.path().is_ident("cfg") && norm(a).contains("test")) { continue; }
-                            process_fn(&mut cx, &f.vis, &f.sig, &f.block, imp.trait_.is_some());
-                        }
-                    }
-                }
-            }
+            Item::Impl(imp) => { handle_impl(&mut cx, imp, &wanted); }
             Item::Fn(f) => {
                 if o.impl_filter.is_none() && wanted(&f.sig.ident.to_string()) {
                     process_fn(&mut cx, &f.vis, &f.sig, &f.block, false);
